@@ -3,7 +3,7 @@
 using namespace vf;
 namespace {
 namespace c17 { enum K { WRITE = 0, SEEK, TELL, SIZE, READ_BUF, READ_ALL, READ_STR, REOPEN, W_SEEK, W_REOPEN }; }
-namespace c18 { enum K { MKDIR = 0, MKFILE, STR_LAW, STR_ANY, V_PUSH_CTOR, V_PUSH_DEFAULT, V_SET, V_VISIT, V_RESTORE, V_POP }; }
+namespace c18 { enum K { MKDIR = 0, MKFILE, STR_LAW, STR_ANY, V_PUSH_CTOR, V_PUSH_DEFAULT, V_SET, V_VISIT, V_RESTORE, V_POP, V_CHDIR }; }
 
 // byte strings biased to NUL, 0xFF, CR, LF, 0x1A (CRLF pairs arise naturally)
 rc::Gen<std::string> content(int maxLen) {
@@ -30,8 +30,18 @@ Register r18("C18", [](Tier t) {
     auto tree = genOps({{MKDIR, 8, 63, 255, 255}, {MKFILE, 10, 63, 255, 255}}, t == THOROUGH ? 70 : 36);
     auto strs = genOps({{STR_LAW, 10, 255, 255, 255}, {STR_ANY, 4, 255, 255, 255}}, 30);
     auto vis = genOps({{MKDIR, 6, 63, 255, 255}, {V_PUSH_CTOR, 6, 63, 255, 0}, {V_PUSH_DEFAULT, 2, 0, 0, 0}, {V_SET, 3, 63, 255, 0}, {V_VISIT, 4, 0, 0, 0}, {V_RESTORE, 2, 0, 0, 0},
-                       {V_POP, 5, 0, 0, 0}}, 30);
+                       {V_POP, 5, 0, 0, 0}, {V_CHDIR, 3, 0, 255, 0}}, 30);
     auto H = genHeader({{t, t}});
-    return rc::gen::weightedOneOf<Case>({{5, genCase("C18", H, tree)}, {3, genCase("C18", H, strs)}, {3, genCase("C18", H, vis)}});
+    // raw (d, n) pairs as a blob "d\0n": segments of arbitrary bytes (no NUL) with separators sprinkled in
+    auto rawbyte = rc::gen::weightedOneOf<uint8_t>({{4, rc::gen::just<uint8_t>('/')}, {2, rc::gen::just<uint8_t>('.')}, {1, rc::gen::just<uint8_t>(':')}, {1, rc::gen::just<uint8_t>(' ')},
+                                                    {6, rc::gen::map(rng(1, 255), [](int x) { return (uint8_t)x; })}, {6, rc::gen::map(rng('a', 'e'), [](int x) { return (uint8_t)x; })}});
+    auto part = [rawbyte](double sc) { return rc::gen::scale(sc, rc::gen::container<std::vector<uint8_t>>(rawbyte)); };
+    auto blob = rc::gen::map(rc::gen::tuple(part(0.4), part(0.15)), [](const std::tuple<std::vector<uint8_t>, std::vector<uint8_t>> &t) {
+        std::string s(std::get<0>(t).begin(), std::get<0>(t).end()); s.push_back('\0');
+        for (uint8_t ch : std::get<1>(t)) if (ch != '/' && ch != '\\') s.push_back((char)ch);
+        return s;
+    });
+    auto raw = genCase("C18", H, rc::gen::just(std::vector<Op>{}), rc::gen::just(std::vector<uint8_t>{}), blob);
+    return rc::gen::weightedOneOf<Case>({{5, genCase("C18", H, tree)}, {3, genCase("C18", H, strs)}, {3, genCase("C18", H, vis)}, {2, raw}});
 });
 } // namespace
